@@ -199,6 +199,16 @@ fn mutate_bytes(src: &mut Src, bytes: &mut Vec<u8>, other: &[u8]) -> &'static st
     }
 }
 
+/// Is the node's arrow a complete type determined by the sub-expression alone?
+fn closed_arrow(nodes: &[WNode], n: usize) -> bool {
+    match &nodes[n] {
+        WNode::Jet(_) | WNode::Word(..) => true,
+        WNode::Comp(a, b) | WNode::Pair(a, b) => closed_arrow(nodes, *a) && closed_arrow(nodes, *b),
+        _ => false,
+    }
+}
+
+#[allow(dead_code)]
 fn subtree_has_witness(nodes: &[WNode], n: usize) -> bool {
     let mut st = vec![n];
     let mut seen = vec![false; nodes.len()];
@@ -219,9 +229,18 @@ fn subtree_has_witness(nodes: &[WNode], n: usize) -> bool {
 fn directed_negative(src: &mut Src, v: &Valid, nodes: &[WNode], codes: &JetCodes) -> Option<(&'static str, Vec<u8>, Vec<u8>, Vec<u8>)> {
     let n = nodes.len();
     let twin = v.prog.clone();
+    // The structural violations (order, duplicate, hidden) are applicable to few programs, the
+    // others to all: half of the time the structural ones are tried first.
     let order: Vec<usize> = {
-        let start = src.below(9);
-        (0..9).map(|i| (start + i) % 9).collect()
+        let structural = [[1usize, 2, 3], [2, 3, 1], [3, 1, 2], [3, 2, 1], [1, 3, 2], [2, 1, 3]][src.below(6)];
+        let always = [0usize, 4, 5, 6, 8];
+        let start = src.below(always.len());
+        let rest: Vec<usize> = (0..always.len()).map(|i| always[(start + i) % always.len()]).collect();
+        if src.bool() {
+            structural.iter().copied().chain(rest).collect()
+        } else {
+            rest.into_iter().chain(structural.iter().copied()).collect()
+        }
     };
     for kind in order {
         match kind {
@@ -269,7 +288,10 @@ fn directed_negative(src: &mut Src, v: &Valid, nodes: &[WNode], codes: &JetCodes
                         indeg[c] += 1;
                     }
                 }
-                let cands: Vec<usize> = (0..n).filter(|i| indeg[*i] >= 2 && !matches!(nodes[*i], WNode::Hidden(_)) && !subtree_has_witness(nodes, *i)).collect();
+                // only sub-expressions whose arrow is fully determined by themselves (jets, words and
+                // comp/pair of such): un-sharing any other node can legitimately change its type
+                // (sharing adds constraints), after which the copies are no longer duplicates
+                let cands: Vec<usize> = (0..n).filter(|i| indeg[*i] >= 2 && closed_arrow(nodes, *i)).collect();
                 if cands.is_empty() {
                     continue;
                 }
@@ -461,6 +483,12 @@ pub fn case(cx: &mut Case) -> CaseResult {
             // canonical twin accepted (otherwise the harness is wrong, not the library)
             let t = decode_all(family, &twin, &v.wit)?;
             if !t.redeem_ok {
+                if kind == "repeated hidden node" {
+                    // making two hidden roots equal can make two assertions identical, so that the
+                    // twin itself is not maximally shared: not a usable pair
+                    cx.label("negative: twin not canonical (skipped)");
+                    return Ok(());
+                }
                 return Err(harness_error(format!("canonical twin of a {} negative is not accepted: {} / {}", kind, hex(&twin), hex(&v.wit))));
             }
             let r = decode_all(family, &nprog, &nwit)?;
